@@ -133,6 +133,11 @@ func Child(args []string) {
 			}
 			ch := chanOf(i)
 			size := []int{10, 200, 5000, 60000}[rng.Intn(4)]
+			if i%5 == 2 {
+				// the largest messages a broker accepts: id + channel + payload at and just below 65536 bytes
+				probe := message.New(ssidOf(i), []byte(ch), nil)
+				size = 65536 - len(probe.ID) - len(ch) - []int{0, 1, 4, 8, 16}[(i/5)%5]
+			}
 			payload := make([]byte, size)
 			rng.Read(payload)
 			m := message.New(ssidOf(i), []byte(ch), payload)
